@@ -142,7 +142,7 @@ class RawServer(object):
         if kind == "oversize":
             self.sent.append((self.clock.seconds(), conn.id, b"<oversize>", "oversize"))
             conn.server_send(struct.pack(">I", self.plan.get("oversize_len", 0x80000000)), label="net.s2c.oversize")
-            conn.server_send(b"\0" * 65536, label="net.s2c.oversize_tail")
+            conn.server_send(self.plan.get("oversize_tail") or (b"\0" * 65536), label="net.s2c.oversize_tail")
             conn.oversize_at = self.clock.seconds()
         elif kind == "short_frame":
             # a frame too short to carry a correlation id (rid = its 0..3 content bytes, hex)
@@ -267,7 +267,7 @@ def pattern_scenario(seed):
     ids = rng.sample(range(1, 2 ** 31 - 1), n)
     kind = rng.choice(("lost_with_cancelled", "lost_with_cancelled", "close_cancels_sibling", "close_cancels_sibling",
                        "lost_then_close", "disconnect_window", "disconnect_window", "flush_on_connect",
-                       "flush_on_connect", "odd_ids", "odd_ids"))
+                       "flush_on_connect", "odd_ids", "odd_ids", "late_data", "late_data"))
     t0 = [round(rng.choice((0.0, 0.0, 0.01, 0.03)) * k, 4) for k in range(n)]
     actions = [[t0[k], "req", i, True] for k, i in enumerate(ids)]
     on_fire, behaviour, cuts, connect = {}, [], {}, ["accept"] * 12
@@ -275,7 +275,29 @@ def pattern_scenario(seed):
     horizon = 3.0
     force_latency = None
     injections = []
-    if kind == "odd_ids":
+    linger = None
+    oversize_tail = None
+    if kind == "late_data":
+        # a transport that keeps delivering after loseConnection() until the closing handshake is through (TLS):
+        # a reply that arrives right behind disconnect(), and what follows an impossible length prefix - bytes
+        # shaped like frames that bear the ids of requests in flight
+        linger = rng.choice((0.02, 0.05))
+        force_latency = 0.0
+        what = rng.choice(("reply_after_disconnect", "frames_after_oversize"))
+        td = round(rng.uniform(0.2, 0.5), 4)
+        for k, i in enumerate(ids):
+            behaviour.append([i, 0, ["never"]])
+            behaviour.append([i, 1, ["now"]])
+            behaviour.append([i, 2, ["now"]])
+        if what == "reply_after_disconnect":
+            k = rng.randrange(n)
+            behaviour[3 * k] = [ids[k], 0, ["delay", round(td - t0[k] + linger / 2.0, 4)]]
+            actions.append([td, "disconnect"])
+        else:
+            injections.append([td, "oversize", None])
+            oversize_tail = b"".join(struct.pack(">ii", 12, i) + b"INNARDS!" for i in rng.sample(ids, min(2, n))) * 3
+            oversize_tail = oversize_tail.hex()
+    elif kind == "odd_ids":
         # correlation ids at the edges of int32 (negative ones included: the broker client takes what it is given),
         # and frames too short to carry an id at all - the bytes they do carry spell the id of a request in flight
         pool = [0, 7, 258, 65537, -1, -2, -7, -2 ** 31, 2 ** 31 - 1, -65536, 2 ** 24 + 3]
@@ -373,6 +395,7 @@ def pattern_scenario(seed):
     actions.sort(key=lambda a: a[0])
     return dict(seed=seed, ids=ids, on_fire=on_fire, extra_ids=[], unwritable=[], actions=actions, behaviour=behaviour,
                 injections=injections, connect=connect, cuts=cuts, end=end, horizon=horizon, pattern=kind,
+                linger=linger, oversize_tail=oversize_tail,
                 latency=rng.choice((0.0, 0.002, 0.02)) if force_latency is None else force_latency,
                 chunk=rng.choice(("whole", "bytes", "random")),
                 retry_base=rng.choice((0.05, 0.2)), retry_step=rng.choice((0.0, 0.07)))
@@ -389,8 +412,11 @@ def run_scenario(sc, ghost=False, debug=False):
     rng = random.Random(sc["seed"] ^ 0x5EED)
     clock = SimClock()
     net = SimNet(clock, rng, max_latency=sc["latency"], chunk_mode=sc["chunk"])
+    net.linger_reads = sc.get("linger")
     plan = dict(behaviour={(i, n): tuple(b) for i, n, b in sc["behaviour"]},
                 cuts={int(k): tuple(v) for k, v in sc["cuts"].items()})
+    if sc.get("oversize_tail"):
+        plan["oversize_tail"] = bytes.fromhex(sc["oversize_tail"])
     server = RawServer(clock, rng, plan, ghost=ghost)
     net.listen(HOST, PORT, server)
     connect_plan = list(sc["connect"])
